@@ -71,12 +71,23 @@ def q_to_units(a, b, ctx):
         ctx.violation("to_units-values", f"to_units({a!r}->{b!r}) = {r.magnitude}, expected {hu.convert(X, a, b)}")
 
 
-def q_prepare(a, b, ctx):
-    """data quantified in a prepared under an info that declares b"""
+MASK = np.array([False, True, False, False, True])
+
+
+def _grid_info(units, masked):
+    import finam as fm
+
+    if masked:
+        return fm.Info(time=hs.T0, grid=fm.UniformGrid((6,)), units=units, mask=MASK)
+    return fm.Info(time=hs.T0, grid=fm.NoGrid(1), units=units)
+
+
+def q_prepare(a, b, ctx, masked=False):
+    """data quantified in a prepared under an info that declares b (optionally with a fixed mask)"""
     import finam as fm
     from finam.data import tools
 
-    info = fm.Info(time=hs.T0, grid=fm.NoGrid(1), units=b)
+    info = _grid_info(b, masked)
     q = tools.UNITS.Quantity(X.copy(), a)
     try:
         r = tools.prepare(q, info)
@@ -91,21 +102,22 @@ def q_prepare(a, b, ctx):
         ctx.violation("prepare-accepts-incompatible", f"prepare accepted {a!r} under info units {b!r}")
         return
     exp = X if hu.equivalent(a, b) else hu.convert(X, a, b)
-    if not _close(r.magnitude[0], exp):
-        ctx.violation("prepare-values", f"prepare({a!r} under {b!r}) = {r.magnitude}, expected {exp}")
-    if hu.equivalent(a, b) and not np.array_equal(r.magnitude[0], X):
+    keep = ~MASK if masked else np.ones(len(X), bool)
+    got = np.ma.getdata(r.magnitude[0])
+    # (prepare keeps the label of equivalent units; only the numbers are judged here)
+    if not _close(got[keep], exp[keep]):
+        ctx.violation("prepare-values" + ("-masked-info" if masked else ""), f"prepare({a!r} under {b!r}) = {got}, expected {exp}")
+    if hu.equivalent(a, b) and not np.array_equal(got[keep], X[keep]):
         ctx.violation("prepare-equivalent-changed", f"equivalent units {a!r}->{b!r} changed numbers")
 
 
-def q_link(a, b, ctx, publish_unit=None):
+def q_link(a, b, ctx, publish_unit=None, masked=False):
     """producer declares a, consumer declares b; optionally the payload is quantified in publish_unit"""
     import finam as fm
     from finam.data import tools
 
-    link = hs.Link(
-        fm.Info(time=hs.T0, grid=fm.NoGrid(1), units=a),
-        [fm.Info(time=hs.T0, grid=fm.NoGrid(1), units=b)],
-    )
+    cinfo = _grid_info(b, False) if not masked else fm.Info(time=hs.T0, grid=fm.UniformGrid((6,)), units=b)
+    link = hs.Link(_grid_info(a, masked), [cinfo])
     try:
         link.connect()
     except fm.FinamMetaDataError:
@@ -139,13 +151,15 @@ def q_link(a, b, ctx, publish_unit=None):
     exp = in_a if hu.equivalent(a, b) else hu.convert(in_a, a, b)
     if str(r.units) != str(tools.UNITS.Unit(b)):
         ctx.violation("link-label", f"pulled units {r.units}, consumer declared {b!r}")
-    if not _close(r.magnitude[0], exp):
-        ctx.violation("link-values", f"{src!r} -> {a!r} -> {b!r}: got {r.magnitude[0]}, expected {exp}")
-    if p is None and hu.equivalent(a, b) and not np.array_equal(r.magnitude[0], X):
+    keep = ~MASK if masked else np.ones(len(X), bool)
+    got = np.ma.getdata(r.magnitude[0])
+    if not _close(got[keep], exp[keep]):
+        ctx.violation("link-values" + ("-masked-info" if masked else ""), f"{src!r} -> {a!r} -> {b!r}: got {got}, expected {exp}")
+    if p is None and hu.equivalent(a, b) and not np.array_equal(got[keep], X[keep]):
         ctx.violation("link-equivalent-changed", f"equivalent units {a!r}->{b!r} changed numbers on the link")
 
 
-HELPERS = ["compat", "equiv", "to_units", "prepare", "link", "publish"]
+HELPERS = ["compat", "equiv", "to_units", "prepare", "link", "publish", "prepare_m", "publish_m", "link_m"]
 
 
 def run_query(q, ctx):
@@ -163,9 +177,18 @@ def run_query(q, ctx):
     elif h == "publish":
         # payload quantified in a, output declares b, consumer takes b
         q_link(b, b, ctx, publish_unit=a)
+    elif h == "prepare_m":
+        q_prepare(a, b, ctx, masked=True)
+    elif h == "publish_m":
+        q_link(b, b, ctx, publish_unit=a, masked=True)
+    elif h == "link_m":
+        q_link(a, b, ctx, masked=True)
 
 
 def check_pair(case, ctx):
+    from finam.data import tools
+
+    tools.clear_units_cache()  # process-global memo: every case starts from the same state
     a, b = case
     ctx.nontrivial(a != b)
     ctx.event("compatible" if hu.compatible(a, b) else "incompatible")
@@ -180,6 +203,7 @@ def check_pair(case, ctx):
 def check_sequence(case, ctx):
     from finam.data import tools
 
+    tools.clear_units_cache()  # process-global memo: every case starts from the same state
     seen = set()
     nt = False
     conv = False
